@@ -650,7 +650,7 @@ func (v Value) export() interface{} {
 			keyKind := reflect.Invalid
 			elemKind := reflect.Invalid
 			state := 0
-			var t reflect.Type
+			var t, common reflect.Type
 			for index := range length {
 				name := strconv.FormatInt(int64(index), 10)
 				if !obj.hasProperty(name) {
@@ -676,8 +676,10 @@ func (v Value) export() interface{} {
 					kind = k
 					keyKind = kk
 					elemKind = ek
+					common = t
 					state = 1
-				} else if state == 1 && (kind != k || keyKind != kk || elemKind != ek) {
+				} else if state == 1 && (kind != k || keyKind != kk || elemKind != ek || common != t) {
+					// Same kinds are not enough: [][]int64 and [][]string differ.
 					state = 2
 				}
 
